@@ -92,3 +92,8 @@ contract(
     assumptions=["the 'alpha_scaling' attribute path (LeakyReLU recovered from Mul+Max) is not covered: attrs has only 'alpha'",
                  "convert_to_lut (numpy table -> LUT tensor) receives the table unchanged (captured at the call)"],
 )
+
+
+# convert_to_lut8 (sigmoid / tanh tables): a contract of the same shape (entry == clamp(round_away_zero(zp_out + fn(s_in * (x - zp_in)) / s_out)) in
+# double precision, fn uninterpreted) was written and tried; z3 left the invariant-preservation and the final obligation undecided
+# (mixed int / float min-max terms with FloatingPoint conversions, > 60 s each), so it is not registered in this revision.
